@@ -63,7 +63,7 @@ Lemma step_safe e s x :
   inv s -> static_ok e -> peer_ok e s x = true ->
   exists s', client_step e s x = (s', None) /\ inv s'.
 Proof.
-  intros I (Hd & Hi0 & Hi) P. destruct x as [ty n | ty n | n | len | k w | | d pidle pto3]; simpl in P |- *.
+  intros I (Hd & Hi0 & Hi) P. destruct x as [ty n | ty n | n | k | len | k w | | d pidle pto3]; simpl in P |- *.
   - (* EvData *)
     apply andb_prop in P as [P Pc]. apply andb_prop in P as [P Ps]. apply andb_prop in P as [Pn Po].
     assert (Ho : (ty =? 0) || fits_client s (cnt_kind ty) (implicit_open s ty) = true).
@@ -85,6 +85,9 @@ Proof.
     apply andb_prop in P as [_ P]. rewrite (fits_peer_client _ _ _ I P). simpl.
     eexists. split; [reflexivity|]. apply inv_bump. exact I.
   - (* EvCID *)
+    apply andb_prop in P as [_ P]. rewrite (fits_peer_client _ _ _ I P). simpl.
+    eexists. split; [reflexivity|]. apply inv_bump. exact I.
+  - (* EvCIDRotate *)
     apply andb_prop in P as [_ P]. rewrite (fits_peer_client _ _ _ I P). simpl.
     eexists. split; [reflexivity|]. apply inv_bump. exact I.
   - (* EvDgram *)
